@@ -327,7 +327,10 @@ func runC11(s *kernel.Sim, cfg string) {
 			case 2:
 				host = strings.ToLower(host)
 			}
-			qt := kernel.Pick(t, []uint16{dns.TypeA, dns.TypeAAAA, dns.TypeHTTPS, dns.TypeMX, dns.TypeCNAME}, "qtype")
+			qt := kernel.Pick(t, []uint16{
+				dns.TypeA, dns.TypeAAAA, dns.TypeHTTPS, dns.TypeA, dns.TypeAAAA, dns.TypeHTTPS,
+				dns.TypeMX, dns.TypeCNAME, dns.TypeSVCB, dns.TypeNS, dns.TypeSRV, dns.TypePTR, dns.TypeANY, dns.TypeSOA,
+			}, "qtype")
 			up.names = nil
 			statID, statRule = "", ""
 			req := (&dns.Msg{}).SetQuestion(dns.Fqdn(host), qt)
